@@ -778,3 +778,28 @@ def fragile_handler_steps(handler):
                     n.attr not in ('args', '__class__', '__traceback__', '__cause__', '__context__', 'with_traceback', '__doc__', '__dict__'):
                 out.append(n)
     return out
+
+
+def mutable_defaults_mutated(fn_node):
+    """parameters whose default is a mutable display / constructor call (`[]`, `{}`, `set()`, `list()`, `dict()`) and that the function
+    changes in place (append / extend / update / add / subscript store / augmented assignment): the one default object is shared by every
+    call that relies on it. Returns [(arg node, mutation node)]"""
+    a = fn_node.args
+    pos = a.args[len(a.args) - len(a.defaults):] if a.defaults else []
+    pairs = list(zip(pos, a.defaults)) + [(p, d) for p, d in zip(a.kwonlyargs, a.kw_defaults) if d is not None]
+    out = []
+    for p, d in pairs:
+        mutable = isinstance(d, (ast.List, ast.Dict, ast.Set)) or (isinstance(d, ast.Call) and isinstance(d.func, ast.Name) and
+                                                                    d.func.id in ('list', 'dict', 'set', 'defaultdict', 'OrderedDict', 'deque', 'Counter'))
+        if not mutable:
+            continue
+        rebound = any(isinstance(x, ast.Name) and x.id == p.arg and isinstance(x.ctx, ast.Store) for x in ast.walk(fn_node))
+        for n in ast.walk(fn_node):
+            hit = (isinstance(n, ast.Call) and isinstance(n.func, ast.Attribute) and isinstance(n.func.value, ast.Name) and n.func.value.id == p.arg and
+                   n.func.attr in ('append', 'extend', 'insert', 'update', 'add', 'setdefault', 'pop', 'remove', 'clear', 'sort', 'appendleft')) or \
+                  (isinstance(n, ast.Subscript) and isinstance(n.ctx, (ast.Store, ast.Del)) and isinstance(n.value, ast.Name) and n.value.id == p.arg) or \
+                  (isinstance(n, ast.AugAssign) and isinstance(n.target, ast.Name) and n.target.id == p.arg)
+            if hit and not rebound:
+                out.append((p, n))
+                break
+    return out
